@@ -244,3 +244,45 @@ pub fn pair_corpus_thorough() -> Vec<Value> {
     ]));
     dedup(v)
 }
+
+/// Letters chosen for how they collide in encodings: same UTF-8 lead byte (é/ü, 水/氵, 😀/😁), same
+/// low byte of the code point ('-' U+002D / 中 U+4E2D, '4' U+0034 / д U+0434), ASCII, a combining mark.
+pub fn uni_letters_rich() -> Vec<char> {
+    vec!['a', '-', '4', 'é', 'ü', 'д', '水', '氵', '中', '😀', '😁', '\u{301}']
+}
+
+/// All strings of length 0..=max_len over the rich letters.
+pub fn s_uni_rich(max_len: usize) -> Vec<String> {
+    let letters = uni_letters_rich();
+    let mut out = vec![String::new()];
+    let mut layer = vec![String::new()];
+    for _ in 0..max_len {
+        let mut next = Vec::new();
+        for s in &layer {
+            for c in &letters {
+                let mut t = s.clone();
+                t.push(*c);
+                next.push(t);
+            }
+        }
+        out.extend(next.iter().cloned());
+        layer = next;
+    }
+    out
+}
+
+/// Pairs of values of different JSON type whose string forms coincide ("spelling twins").
+pub fn spelling_twins() -> Vec<(Value, Value)> {
+    vec![
+        (json!(1), json!("1")),
+        (json!(null), json!("null")),
+        (json!(true), json!("true")),
+        (json!([1]), json!("1")),
+        (json!([1, 2]), json!("1,2")),
+        (json!(1.5), json!("1.5")),
+        (json!({}), json!("[object Object]")),
+        (json!(0), json!(-0.0)),
+        (json!(1), json!(1.0)),
+        (json!([]), json!("")),
+    ]
+}
